@@ -10,6 +10,8 @@ CONSTANTS
   Filters = 0
   Order = 0
   CompileMode = "stated"
+  Inners = 0
+  ScopeMode = "stated"
 INIT TInit
 NEXT TNext
 INVARIANT TypeInv
